@@ -1198,6 +1198,36 @@ class DiskRefsContainer(RefsContainer):
             # errors depending on the specific operating system
             return None
 
+    def _check_packed_refs_conflict(
+        self, name: Ref, filename: bytes
+    ) -> dict[Ref, ObjectID]:
+        """Refuse a ref name that conflicts, as file versus directory, with a packed ref.
+
+        Loose refs cannot conflict this way (the file system refuses), but a
+        packed ref has no file or directory standing in for it.
+
+        Args:
+          name: Name of the ref that is about to be written
+          filename: Path of its loose file, for the exception
+        Returns: The packed refs
+        Raises:
+          NotADirectoryError: if a leading part of name is a packed ref
+          IsADirectoryError: if packed refs exist below name
+        """
+        packed_refs = self.get_packed_refs()
+        # make sure none of the ancestor folders is in packed refs
+        probe_ref = Ref(os.path.dirname(name))
+        while probe_ref:
+            if packed_refs.get(probe_ref, None) is not None:
+                raise NotADirectoryError(filename)
+            probe_ref = Ref(os.path.dirname(probe_ref))
+        # ... and that no packed ref lives in a folder of this name
+        prefix = name + b"/"
+        for packed_ref in packed_refs:
+            if packed_ref.startswith(prefix):
+                raise IsADirectoryError(filename)
+        return packed_refs
+
     def _remove_packed_ref(self, name: Ref) -> None:
         if name not in self.get_packed_refs():
             return
@@ -1248,6 +1278,7 @@ class DiskRefsContainer(RefsContainer):
         self._check_refname(name)
         self._check_refname(other)
         filename = self.refpath(name)
+        self._check_packed_refs_conflict(name, filename)
         f = GitFile(filename, "wb")
         try:
             f.write(SYMREF + other + b"\n")
@@ -1302,13 +1333,7 @@ class DiskRefsContainer(RefsContainer):
             realname = name
         filename = self.refpath(realname)
 
-        # make sure none of the ancestor folders is in packed refs
-        probe_ref = Ref(os.path.dirname(realname))
-        packed_refs = self.get_packed_refs()
-        while probe_ref:
-            if packed_refs.get(probe_ref, None) is not None:
-                raise NotADirectoryError(filename)
-            probe_ref = Ref(os.path.dirname(probe_ref))
+        packed_refs = self._check_packed_refs_conflict(realname, filename)
 
         ensure_dir_exists(os.path.dirname(filename))
         with GitFile(filename, "wb") as f:
@@ -1385,6 +1410,7 @@ class DiskRefsContainer(RefsContainer):
             realname = name
         self._check_refname(realname)
         filename = self.refpath(realname)
+        self._check_packed_refs_conflict(realname, filename)
         ensure_dir_exists(os.path.dirname(filename))
         with GitFile(filename, "wb") as f:
             if os.path.exists(filename) or name in self.get_packed_refs():
